@@ -12,6 +12,11 @@ visible. In the identity representation every part is dyadic: the sum is exact a
 Ragged letters (grid id, spots ...) script a path on its OWN time grid (GRIDS: 2, 3 or 4 dates, same end points, other
 interior dates), with the deterministic part x0 + drift t of the case (`det`); the reference reads every path on its own dates.
 
+Default-time letters ("D", grid id, diffusion increments, log-jump increments) script BOTH stochastic components on the
+letter's own grid, for products on the DefaultTime underlying, which reads the pure-jump component; the reference finds the
+default time from the scripted log-jump increments alone. Every path object handed out is remembered with copies of its three
+arrays (`changed_paths`): the engine must not modify them.
+
 The reference model (pure Python, math.fsum) is in this file too: payoff rows, control rows, given control prices.
 """
 from __future__ import annotations
@@ -59,6 +64,25 @@ ALPHABETS["R27"] = tuple((g, m, t) for g in ("q", "h", "t") for m in (1.0, 2.0, 
 _RAGGED_CYCLE = ("q", "h", "t", "qh", "ht", "qt", "e", "t", "h", "q")  # neighbours of the same length are different grids
 _RAGGED_MIDS = (1.0, 2.0, 0.25, 1.125, 0.875)
 
+# Default-time letters (products on the DefaultTime underlying, which reads the PURE-JUMP component of the path): a letter is
+# ("D", grid id, diffusion increments, log-jump increments), one increment per interval of the grid. Both components are
+# non-zero. Per interval the pair (log-jump increment, diffusion increment) is one of DEFAULT_PAIRS: no move of the jump part
+# with a diffusion move above / BELOW the threshold (a Brownian move must not trigger a default), a jump below the threshold
+# compensated by the diffusion (total increment 0: a default), a jump above the threshold with a diffusion move that takes the
+# total below it (no default). The threshold is DEFAULT_LEVEL; every increment is dyadic and no increment is within 0.1 of it.
+DEFAULT_LEVEL = -0.25
+DEFAULT_PAIRS = ((0.0, 0.25), (0.0, -0.5), (-0.5, 0.5), (-0.125, -0.5))
+ALPHABETS["D32"] = tuple(("D", g, (a[1], b[1]), (a[0], b[0])) for g in ("q", "t") for a in DEFAULT_PAIRS for b in DEFAULT_PAIRS)
+DEFAULT_KINDS = ("cds", "dput", "dpv2")  # CDS payoff / put(s) on the default time (time left to maturity after the default)
+CDS_RATE, CDS_RECOVERY, CDS_SPREAD = 0.0625, 0.375, 0.046875
+DPUT_CONTROL_K = 0.875  # strike of the control put on the default time
+
+
+def cds_df(t):
+    """discounting function handed to the library's CDS payoff"""
+    return math.exp(-CDS_RATE * t)
+
+
 FORWARD_KINDS = ("f",)  # the product is a forward: a payoff of both signs
 PUT_KINDS = ("pv2",)  # puts on a vector of strikes
 STRIKES = {"s": 0.75, "v2": [0.75, 1.25], "v3": [0.25, 0.75, 1.25], "as": 0.75, "av2": [0.75, 1.25], "f": 0.75, "pv2": [0.75, 1.25],
@@ -66,9 +90,11 @@ STRIKES = {"s": 0.75, "v2": [0.75, 1.25], "v3": [0.25, 0.75, 1.25], "as": 0.75, 
            "ls": -0.25, "lv2": [-0.25, 0.25], "m": 0.75, "mv2": [0.75, 1.25],
            # integer-valued strikes (sub "forms": the same strikes given as Python ints / integer arrays)
            "si": 1.0, "vi2": [0.0, 1.0],
+           "cds": 1.0, "dput": 1.0, "dpv2": [0.5, 1.0],  # cds: placeholder (scalar payoff); puts on the default time
            "b-ui": BARRIER_STRIKE, "b-uo": BARRIER_STRIKE, "b-di": BARRIER_STRIKE, "b-do": BARRIER_STRIKE}
 PAYOFF_UNDERLYING = {"s": "spot", "v2": "spot", "v3": "spot", "ls": "logspot", "lv2": "logspot", "m": "mean", "mv2": "mean",
-                     "as": "asian", "av2": "asian", "f": "spot", "pv2": "spot", "si": "spot", "vi2": "spot", "b-ui": "spot", "b-uo": "spot", "b-di": "spot", "b-do": "spot"}
+                     "as": "asian", "av2": "asian", "f": "spot", "pv2": "spot", "si": "spot", "vi2": "spot", "b-ui": "spot", "b-uo": "spot", "b-di": "spot", "b-do": "spot",
+                     "cds": "default", "dput": "default", "dpv2": "default"}
 LFWD_K = -0.5  # strike of the forward on the log-spot
 LCALL_K = -0.25  # strike of the call on the log-spot
 
@@ -79,7 +105,17 @@ CALL_K = (0.875, 0.625, 1.125)
 CV_KINDS = ("none", "1r", "1a", "2r", "2a", "2u")
 CROSS_CV_KINDS = ("1x", "2x")
 TINY_CV_KINDS = ("1t", "2t")  # control products with small notionals: 1e-7; the pair 1e-3 / 1e-6
-TINY_NOTIONALS = {"1t": (1e-7,), "2t": (1e-3, 1e-6)}  # controls on an underlying type different from the product's
+TINY_NOTIONALS = {"1t": (1e-7,), "2t": (1e-3, 1e-6)}
+# PATH-DEPENDENT controls (barrier calls on Spot, strike CALL_K[0], barriers as the barrier payoffs): 1b = up-and-out;
+# 2b = forward + down-and-in; 2c = up-and-in + down-and-out. For a product on Spot the control's underlying is IMPLIED from the
+# product's, for a product on another underlying type (Asian) it is computed from the path: either way the control sample of a
+# path is the control product valued on its own on that path. They need letters that script a whole path.
+PATH_CV_KINDS = ("1b", "2b", "2c")
+_PATH_CV_NAMES = {"1b": ("bar-uo",), "2b": ("forward", "bar-di"), "2c": ("bar-ui", "bar-do")}
+# controls of the products on the default time: 1d = put on the default time (same underlying type: implied);
+# 2d = forward on Spot (computed from the path) + put on the default time
+DEFAULT_CV_KINDS = ("1d", "2d")
+_DEFAULT_CV_NAMES = {"1d": ("dput",), "2d": ("forward", "dput")}
 
 
 def quiet():
@@ -141,6 +177,7 @@ class CallCounter:
         self.uid = next(_UID) if uid is None else uid
         self.calls = 0
         self.log = []
+        self.handed = []  # (path object, copies of its times / diffusion / jump arrays) of the paths handed out (first 4096)
         _COUNTERS[self.uid] = self
 
     def __reduce__(self):
@@ -189,6 +226,7 @@ class ScriptedProcess:
         self.letters = list(letters)
         self._state.calls = 0
         self._state.log = []
+        self._state.handed = []
         if df is not None:
             self._df = df
 
@@ -214,6 +252,10 @@ class ScriptedProcess:
         dates of that grid after the first), the path starting at spot 1 as well."""
         letter = self.letters[k]
         ident = self.representation == "identity"
+        if is_default_letter(letter):
+            times, diff, logjump = default_parts(letter)
+            # identity representation: the default-time underlying takes the logarithm of the jump component
+            return np.array(times), np.array(diff), np.array(logjump if not ident else [math.exp(v) for v in logjump])
         if isinstance(letter, (tuple, list)):
             times, spots = letter_path(letter)
             jump = np.array(jump_part(len(times)))
@@ -236,7 +278,65 @@ class ScriptedProcess:
             # more paths requested than configured: hand out an identifiable value instead of failing in the harness
             return StochasticJumpPath(np.array(TIMES), np.array([0.0, DECOY, 1e6 + k]), np.array(JUMP))
         times, diff, jump = self.stochastic_parts(k)
-        return StochasticJumpPath(times, diff, jump)
+        path = StochasticJumpPath(times, diff, jump)
+        if len(self._state.handed) < 4096:
+            self._state.handed.append((path, times.copy(), diff.copy(), jump.copy()))
+        return path
+
+    def changed_paths(self):
+        """names of the components (times / diffusion / jump) of the handed-out path objects that read differently now than
+        when they were handed to the engine (the engine must not modify the simulated paths: the jump component is read
+        after the path value)"""
+        out = []
+        for path, t0, d0, j0 in self._state.handed:
+            for name, attr, ref in (("times", "jump_times", t0), ("diffusion", "diffusion_path", d0), ("jump", "jump_path", j0)):
+                now = getattr(path, attr, None)
+                if name not in out and not (isinstance(now, np.ndarray) and now.shape == ref.shape and np.array_equal(now, ref)):
+                    out.append(name)
+        return out
+
+
+def is_default_letter(letter):
+    return isinstance(letter, (tuple, list)) and len(letter) == 4 and letter[0] == "D"
+
+
+def default_parts(letter):
+    """(times, diffusion component, LOG-jump component) of a default-time letter: running sums of the scripted increments"""
+    _, g, dd, dj = letter
+    times = GRIDS[g]
+    if len(dd) != len(times) - 1 or len(dj) != len(times) - 1:
+        raise ValueError(f"default letter {letter!r} does not fit its grid {times}")
+    diff, jump = [0.0], [0.0]
+    for a, b in zip(dd, dj):
+        diff.append(diff[-1] + a)
+        jump.append(jump[-1] + b)
+    return times, diff, jump
+
+
+def default_time(letter):
+    """default time of the scripted path, from the scripted LOG-JUMP increments alone: the first date whose log-jump
+    increment is below the threshold, inf if there is none"""
+    _, g, _, dj = letter
+    for k, v in enumerate(dj):
+        if v < DEFAULT_LEVEL:
+            return GRIDS[g][k + 1]
+    return math.inf
+
+
+_DEFAULT_CYCLE = ("q", "qh", "t", "e", "ht", "h", "qt")
+
+
+def default_script(k, n, reverse=False):
+    """Fixed default-time script of the k-th pricing: path i runs on the grid _DEFAULT_CYCLE[i + k] (2, 3 and 4 dates), the
+    (log-jump, diffusion) increments of its intervals cycle through DEFAULT_PAIRS."""
+    out = []
+    for i in range(n):
+        pos = (n - 1 - i) if reverse else i
+        g = _DEFAULT_CYCLE[(pos + k) % len(_DEFAULT_CYCLE)]
+        m = len(GRIDS[g]) - 1
+        pairs = [DEFAULT_PAIRS[(pos + 3 * j + (pos // 4) + k) % 4] for j in range(m)]
+        out.append(("D", g, tuple(p[1] for p in pairs), tuple(p[0] for p in pairs)))
+    return out
 
 
 def det_value(det, t):
@@ -280,6 +380,11 @@ def ragged_script(k, n, reverse=False):
 
 def terminal_spot(letter, representation, det=None):
     """What the library must see as the terminal spot of a path scripted with `letter` (same association as MCPath)."""
+    if is_default_letter(letter):
+        _, diff, logjump = default_parts(letter)
+        j = logjump[-1] if representation != "identity" else math.exp(logjump[-1])
+        x = det_value(det, MATURITY) + (diff[-1] + j)
+        return x if representation == "identity" else math.exp(x)
     jump = JUMP[2]
     if isinstance(letter, (tuple, list)):
         letter = letter[-1]
@@ -294,8 +399,10 @@ def terminal_spot(letter, representation, det=None):
 # ----------------------------------------------------------------------------------------------------------------------
 
 def _underlying(name):
-    from rpylib.product.underlying import Asian, LogSpot, Mean, Spot
+    from rpylib.product.underlying import Asian, DefaultTime, LogSpot, Mean, Spot
 
+    if name == "default":
+        return DefaultTime(default_level=DEFAULT_LEVEL)
     return {"spot": Spot, "logspot": LogSpot, "mean": Mean, "asian": Asian}[name]()
 
 
@@ -357,6 +464,12 @@ def make_product(kind, notional, forms=()):
         from rpylib.product.payoff import Forward
 
         payoff = Forward(strike=strike)
+    elif kind == "cds":
+        from rpylib.product.payoff import CDS
+
+        payoff = CDS(recovery_rate=CDS_RECOVERY, spread=CDS_SPREAD, maturity=MATURITY, discounting=cds_df)
+    elif kind in DEFAULT_KINDS:  # put(s) on the default time: the time left to the strike date after the default
+        payoff = Vanilla(strike=strike, payoff_type=PayoffType.PUT)
     else:
         payoff = Vanilla(strike=strike, payoff_type=PayoffType.PUT if kind in PUT_KINDS else PayoffType.CALL)
     return Product(payoff_underlying=_underlying(PAYOFF_UNDERLYING[kind]), payoff=payoff, maturity=MATURITY, notional=notional)
@@ -375,6 +488,13 @@ def payoff_unit(kind, s, letter=None):
     reference reads all of it, date by date, path by path)."""
     k = STRIKES[kind]
     ks = [k] if isinstance(k, float) else k
+    if kind in DEFAULT_KINDS:
+        if not is_default_letter(letter):
+            raise ValueError("a payoff on the default time needs default-time letters")
+        tau = default_time(letter)  # from the scripted log-jump increments alone
+        if kind == "cds":
+            return [cds_unit(tau)]
+        return [max(x - tau, 0.0) for x in ks]
     if kind in ASIAN_KINDS:
         if not isinstance(letter, (tuple, list)):
             raise ValueError("an Asian payoff needs letters that script the whole path")
@@ -392,8 +512,39 @@ def payoff_unit(kind, s, letter=None):
     return van
 
 
+def cds_unit(tau):
+    """the library's documented CDS payoff (value at maturity of default leg minus fixed leg, continuous spread, the rate
+    read from the discounting function at 1), written out; the formula itself is C19's subject"""
+    r = -math.log(cds_df(1))
+    default_leg = 0 if tau > MATURITY else (1 - CDS_RECOVERY) * cds_df(tau)
+    fixed_leg = CDS_SPREAD * (1 - cds_df(min(MATURITY, tau))) / r
+    return default_leg / cds_df(MATURITY) - fixed_leg / cds_df(MATURITY)
+
+
 def _sq(s):
     return (s - 1.0) ** 2
+
+
+class PathControl:
+    """unit payoff of a PATH-DEPENDENT control as a function of (terminal spot, letter): the control product valued on its
+    own on the whole scripted path"""
+
+    path = True
+
+    def __init__(self, name):
+        self.name = name
+
+    def __call__(self, s, letter):
+        if self.name == "dput":
+            return max(DPUT_CONTROL_K - default_time(letter), 0.0)
+        van = max(s - CALL_K[0], 0.0)
+        spots = letter_path(letter)[1]
+        hit = any(v > BARRIER_UP for v in spots) if self.name[4] == "u" else any(v < BARRIER_DOWN for v in spots)
+        return van if (hit if self.name[5] == "i" else not hit) else 0.0
+
+
+def control_value(f, s, letter):
+    return f(s, letter) if getattr(f, "path", False) else f(s)
 
 
 # mean of each control's unit payoff over the balanced sample (each letter of A3 once): used as the "market price"
@@ -401,6 +552,8 @@ _BAL = ALPHABETS["A3"]
 
 
 def _bal_mean(f):
+    if getattr(f, "path", False):  # a fixed number of the right size (any number may be given as the control's price)
+        return 0.25
     return math.fsum(f(s) for s in _BAL) / len(_BAL)
 
 
@@ -436,6 +589,9 @@ def control_spec(cv_kind, dim, payoff="s"):
             names = ["forward"] if cv_kind == "1x" else ["forward", "lforward"]
         fun = {"forward": _f_forward, "call": _f_call, "lforward": _f_lforward, "lcall": _f_lcall}
         return [(nm, [fun[nm]] * dim, False) for nm in names]
+    if cv_kind in PATH_CV_KINDS or cv_kind in DEFAULT_CV_KINDS:
+        names = _PATH_CV_NAMES[cv_kind] if cv_kind in PATH_CV_KINDS else _DEFAULT_CV_NAMES[cv_kind]
+        return [(nm, [_f_forward if nm == "forward" else PathControl(nm)] * dim, False) for nm in names]
     if cv_kind in TINY_CV_KINDS:
         names = ["forward"] if cv_kind == "1t" else ["forward", "call"]
         fun = {"forward": _f_forward, "call": _f_call}
@@ -490,6 +646,14 @@ def make_controls(cv_kind, dim, notional, df, payoff="s", forms=()):
             pay = Forward(strike=LFWD_K)
         elif name == "lcall":
             pay = Vanilla(strike=LCALL_K, payoff_type=PayoffType.CALL)
+        elif name.startswith("bar-"):
+            from rpylib.product.payoff import Barrier, BarrierType
+
+            bt = {"ui": BarrierType.UP_AND_IN, "uo": BarrierType.UP_AND_OUT, "di": BarrierType.DOWN_AND_IN, "do": BarrierType.DOWN_AND_OUT}[name[4:]]
+            pay = Barrier(strike=CALL_K[0], payoff_type=PayoffType.CALL, barrier_type=bt, barrier=BARRIER_UP if name[4] == "u" else BARRIER_DOWN)
+        elif name == "dput":
+            und = "default"
+            pay = Vanilla(strike=DPUT_CONTROL_K, payoff_type=PayoffType.PUT)
         else:
             pay = PayoffOnTheFly(_sq)
         products.append(Product(payoff_underlying=_underlying(und), payoff=pay, maturity=MATURITY, notional=_notional_form(cn[j], forms)))
@@ -779,7 +943,7 @@ def reference_rows(case, letters):
     S = [terminal_spot(v, rep, case.get("det")) for v in letters]
     cn = control_notionals(case["cv"], nt, len(spec))
     Y = [[(nt * p) * df for p in payoff_unit(case["payoff"], s, v)] for s, v in zip(S, letters)]
-    X = [[[(cn[j] * f(s)) * df for f in fs] for j, (_, fs, _) in enumerate(spec)] for s in S]
+    X = [[[(cn[j] * control_value(f, s, v)) * df for f in fs] for j, (_, fs, _) in enumerate(spec)] for s, v in zip(S, letters)]
     return S, Y, X
 
 
